@@ -317,6 +317,19 @@ def hrnp_catalogue():
     return out
 
 
+def hrnp_long_payloads():
+    T = TextMessageProtocol
+    return [
+        # word sums that need more than one end-around carry, total lengths around 2^15 (a signed 16-bit length field) and near the maximum
+        T(opcode=TMPService.PrivateShortData, source_ip=RadioIP(1001), destination_ip=RadioIP(1002), short_data=b"\xff" * 1400, request_id=1),
+        T(opcode=TMPService.PrivateShortData, source_ip=RadioIP(1001), destination_ip=RadioIP(1002), short_data=b"\xff\xfe" * 16000, request_id=0xFFFFFFFF),
+        T(opcode=TMPService.PrivateShortData, source_ip=RadioIP(1001), destination_ip=RadioIP(1002), short_data=bytes(32768 - 12 - 7 - 12), request_id=1),
+        T(opcode=TMPService.GroupShortData, source_ip=RadioIP(1001), destination_ip=RadioIP(1), short_data=b"\xa5" * 32757, request_id=1),
+        T(opcode=TMPService.PrivateShortData, source_ip=RadioIP(1001), destination_ip=RadioIP(1002), short_data=b"\xff" * 65000, request_id=1),
+        T(opcode=TMPService.PrivateShortData, source_ip=RadioIP(1001), destination_ip=RadioIP(1002), short_data=b"\xff\xff\xff\x00" * 300, request_id=1),
+    ]
+
+
 HRNP_HEADER_ALPHA = {
     "source": [0x20, 0x00, 0x10, 0x2F, 0xFF],
     "destination": [0x10, 0x00, 0x20, 0xFF],
@@ -1203,6 +1216,48 @@ def run(only=None):
         s.declared = 4 * (1 + 20 + 190 + 1140) + 4 * (1 + 16 + 120 + 560)
         for acc in par.pmap(w_burst, tasks, nw):
             s.merge(acc)
+        s.done()
+
+    # ---- 10: long HRNP packets ---------------------------------------------------------------------------
+    if want("hrnp_long_packets"):
+        s = rep.sub("hrnp_long_packets",
+                    "6 HRNP DATA packets of 1.2 kB .. 65 kB (word sums needing more than one end-around carry, total lengths just below / at / above "
+                    "2^15, near 2^16) x 3 packet numbers: the library's serialisation carries the harness's ones-complement checksum and total "
+                    "length, parses back with checksum_correct true and the same payload; the same bytes with the checksum field +1 / -1 or one "
+                    "payload bit inverted (first, middle, last octet) parse back with checksum_correct false")
+        for i, pdu in enumerate(hrnp_long_payloads()):
+            for pn in (1, 0x7FFF, 0xFFFF):
+                case = {"long_packet": i, "packet_number": pn}
+                try:
+                    h_ = HRNP(opcode=HRNPOpcodes.DATA, data=pdu, source=0x20, destination=0x10, block_number=0, packet_number=pn, version=4)
+                    b = h_.as_bytes()
+                    case["total_length"] = len(b)
+                    if int.from_bytes(b[8:10], "big") != len(b):
+                        s.violation("hrnp_long:length_field_differs_from_emitted_length", case)
+                    if int.from_bytes(b[10:12], "big") != ones_complement_checksum(b):
+                        s.violation("hrnp_long:checksum_field_differs_from_reference", {**case, "got": b[10:12].hex(), "want": format(ones_complement_checksum(b), "04x")},
+                                    "the emitted checksum is not the ones-complement checksum of the emitted bytes")
+                    back = HRNP.from_bytes(b)
+                    if back.checksum_correct is not True:
+                        s.violation("hrnp_long:library_serialised_packet_reports_checksum_failed", case)
+                    if back.data.as_bytes() != pdu.as_bytes():
+                        s.violation("hrnp_long:payload_differs_after_parse", case)
+                    for what, mut in (("checksum_plus_1", b[:10] + ((int.from_bytes(b[10:12], "big") + 1) & 0xFFFF).to_bytes(2, "big") + b[12:]),
+                                      ("checksum_minus_1", b[:10] + ((int.from_bytes(b[10:12], "big") - 1) & 0xFFFF).to_bytes(2, "big") + b[12:]),
+                                      ("bit_in_first_payload_octet", b[:40] + bytes([b[40] ^ 0x10]) + b[41:]),
+                                      ("bit_in_middle", b[:len(b) // 2] + bytes([b[len(b) // 2] ^ 0x01]) + b[len(b) // 2 + 1:]),
+                                      ("bit_in_last_payload_octet", b[:-3] + bytes([b[-3] ^ 0x80]) + b[-2:])):
+                        if (int.from_bytes(mut[10:12], "big") == ones_complement_checksum(mut)) or ({int.from_bytes(mut[10:12], "big"), ones_complement_checksum(mut)} == {0, 0xFFFF}):
+                            continue  # (the two zeros of ones-complement arithmetic)
+                        try:
+                            verdict = HRNP.from_bytes(mut).checksum_correct
+                        except Exception:  # noqa: BLE001  (refusing the damaged packet is fine)
+                            verdict = False
+                        if verdict is not False:
+                            s.violation(f"hrnp_long:damaged_packet_reports_checksum_correct:{what}", case)
+                except Exception as e:  # noqa: BLE001
+                    s.violation("hrnp_long:exception:" + exc_sig(e), case, repr(e))
+                s.case(nontrivial=True, calls=8, outcome=i, sample=case if len(s.samples) < 1 else None)
         s.done()
 
     rep.bounds = {
